@@ -57,7 +57,7 @@ def obs_int(v):
         return None
 
 
-def rerun_monitor(info, acts, repair_d8=False):
+def rerun_monitor(info, acts, repair_d8=False, lenient=False):
     """run the Python reference executor over a list of (text, obs); optionally with the D8 repair applied to the stream:
     a Copy(p, DISK, WORK) that is the last access of DISK checkpoint p and is immediately followed by
     Forward(p, _, True, False, RAM) is read as a Move."""
@@ -76,7 +76,7 @@ def rerun_monitor(info, acts, repair_d8=False):
                 b = parsed[i + 1]
                 if b[0] == "F" and b[1] == p and b[3] and not b[4] and b[5] == "RAM":
                     as_move.add(i)
-    m = Monitor(info["N"], info["keep"], info["bram"], info["bdisk"])
+    m = Monitor(info["N"], info["keep"], info["bram"], info["bdisk"], lenient=lenient)
     for i, ((txt, d), a) in enumerate(zip(acts, parsed)):
         if i in as_move:
             a = ("M",) + a[1:]
@@ -87,7 +87,9 @@ def rerun_monitor(info, acts, repair_d8=False):
 
 # ---------------------------------------------------------------- executor-level findings (C01-C04, C08, C12, C18)
 def executor_findings(cases, impl):
-    """-> list of dict(pid, cid, line, err, index, d8) ; one per (case, first error) incl. errors hidden behind D8"""
+    """-> list of dict(pid, cid, line, err, index, d8): per case, the first error of each property, found by running
+    the reference executor leniently over the implementation's stream (a violation of one property must not hide a
+    later violation of another).  d8 = the error disappears under the D8 repair of the stream (known finding)."""
     out = []
     for line in cases:
         if not line.startswith("S "):
@@ -102,18 +104,31 @@ def executor_findings(cases, impl):
         st, _ = mon_of(tr)
         if st is None or st == "ok":
             continue
-        err, idx = st.split("@")
-        d8 = False
-        if info["cls"] == "rev" and info["ps"][1] in D8_CLASSES and err in ("E_leftover", "E_budget_DISK"):
-            acts = actions_of(tr)
-            m2, moved = rerun_monitor(info, acts, repair_d8=True)
-            if moved and m2.err is None:
-                d8 = True
-            elif moved and m2.err is not None and m2.err[0] not in ("E_leftover", "E_budget_DISK"):
-                # D8 explains the first error; something else remains behind it
-                d8 = True
-                out.append(dict(pid=ERR_PROPERTY.get(m2.err[0], "C01"), cid=cid, line=line, err=m2.err[0], index=m2.err[1], d8=False))
-        out.append(dict(pid=ERR_PROPERTY.get(err, "C01"), cid=cid, line=line, err=err, index=int(idx), d8=d8))
+        acts = actions_of(tr)
+        try:
+            m1, _ = rerun_monitor(info, acts, lenient=True)
+        except Exception:  # noqa  (non-canonical action text: reported by the C18 oracle)
+            continue
+        raw = m1.errors
+        first_raw = raw[0] if raw else None
+        rep_codes = None
+        if info["cls"] == "rev" and info["ps"][1] in D8_CLASSES:
+            m2, moved = rerun_monitor(info, acts, repair_d8=True, lenient=True)
+            if moved:
+                rep_codes = set(e for e, _ in m2.errors)
+        seen = set()
+        for e, idx in raw:
+            pid = ERR_PROPERTY.get(e, "C01")
+            if pid in seen:
+                continue
+            seen.add(pid)
+            d8 = rep_codes is not None and e in ("E_leftover", "E_budget_DISK") and e not in rep_codes
+            f = dict(pid=pid, cid=cid, line=line, err=e, index=idx, d8=d8)
+            if first_raw is not None and (e, idx) != first_raw:
+                f["what"] = "%s at action %d (executor run leniently; an earlier requirement already failed: %s at action %d)" % (e, idx, first_raw[0], first_raw[1])
+            else:
+                f["what"] = "%s at action %d" % (e, idx)
+            out.append(f)
     return out
 
 
